@@ -366,6 +366,12 @@ func searchOffs(offs []int, i int) int {
 
 func (p *c01) N() int { return p.total }
 
+// CPUBudget: the deepest ladders of the thorough tier (9000 embeds inside each other, 1.2 MB) take the Twig
+// environment's parse some twelve CPU-seconds - its visitor looks at the template's name at every node, and
+// through the string loader the name is the source: quadratic, not endless. A minute tells the two apart as well
+// as ten seconds do (the exponential traversal repaired in cdaabf4 needed 2^200 steps for the same ladder).
+func (p *c01) CPUBudget() float64 { return 60 }
+
 // RaceSample: an extra -race worker re-runs every 211th (quick) / 4001st (thorough)
 // input; the tokeniser goroutine and the parser share the lexer structure.
 func (p *c01) RaceSample(tier string) int {
